@@ -405,19 +405,26 @@ def run_vqe_jobs(chk, samples, stof, name):
     return verdicts, recs, byid
 
 
+HSTATES = []
+
+
 def part_vqe(chk, rng, cfgs):
     samples, stof = [], {}
+    del HSTATES[:]
     for cfg in cfgs:
         try:
             st = vqe_prepare(chk, cfg, rng)
         except Exception as e:
             chk.violation("vqe-rdm:build:%s:%s" % (cfg["ansatz"], type(e).__name__), "%s: %s" % (cfg["name"], e), {"part": "vqe", "cfg": cfg["name"], "theta": None})
             continue
+        st.vs = []
         for th in st.thetas:
             v = c08.make_solver(cfg) if cfg["fresh"] else st.v
             s = vqe_drive(chk, cfg, st, v, th)
             samples.append(s)
+            st.vs.append(s)
             stof[id(s)] = st
+        HSTATES.append(st)
     verdicts, recs, byid = run_vqe_jobs(chk, samples, stof, "vqe")
     # negative controls: a corrupted record must change the exact values
     ctl = []
@@ -472,6 +479,128 @@ def part_vqe(chk, rng, cfgs):
             chk.sample({"cfg": s.cfg["name"], "theta": s.theta, "E_from_rdm": getattr(s, "E_rdm", None), "E_exact": getattr(s, "Eexact", None),
                         "n_terms": len(s.job["terms"]), "n_words": len(s.job["words"])})
     return judged
+
+
+# ======================================================================================================
+# (i-b) get_rdm as a first-class action of the solver's state machine (spec/C13RdmHistory.tla)
+# ======================================================================================================
+RH_CFG = """CONSTANTS NTheta = 3
+MaxDepth = %d
+Canonical = TRUE
+Export = TRUE
+INIT Init
+NEXT Next
+INVARIANT TypeOK
+INVARIANT CurIsLast
+INVARIANT OptIsLastSim
+INVARIANT FlagsConsistent
+"""
+
+
+def gen_rdm_histories(chk, depth):
+    r = tlc.run("C13RdmHistory", RH_CFG % depth, WD + "/rdm_hist", workers=2)
+    if not r.ok:
+        raise tlc.TLCError("C13RdmHistory: %s\n%s" % (r.violated, r.out[-1500:]))
+    chk.add_tlc(r, "rdm_histories")
+    hs = r.prints("RH")
+    # vacuity control: every action occurs, and get_rdm is requested for the stored optimal vector after other vectors were
+    # evaluated, for the vector currently loaded, and for a vector that is neither
+    kinds, rel = {}, {"optimal-not-current": 0, "current": 0, "other": 0}
+    for h in hs:
+        for c in h:
+            kinds[c["kind"]] = kinds.get(c["kind"], 0) + 1
+            if c["kind"] == "rdm":
+                rel["optimal-not-current" if (c["isopt"] and not c["iscur"]) else ("current" if c["iscur"] else "other")] += 1
+    chk.part("rdm_histories", histories=len(hs), depth=depth, calls_by_action=kinds, rdm_requests_by_relation=rel)
+    if set(kinds) != {"energy", "opexp", "simulate", "rdm"} or not all(rel.values()):
+        raise tlc.TLCError("vacuity: C13RdmHistory did not generate every action / relation: %s %s" % (kinds, rel))
+    return hs
+
+
+def relation(cur, opt, t):
+    if opt is not None and t == opt and t != cur:
+        return "requested=stored-optimal-vector-after-other-evaluation"
+    if cur is not None and t == cur:
+        return "requested=vector-currently-loaded"
+    return "requested=other-vector"
+
+
+def replay_rdm_history(cfg, st, v, holder, hist, state):
+    """Run one history on solver v; returns None or (step, key suffix, text). state: actual cur / opt of the solver."""
+    mol = c08.molecule(cfg["mol"])
+    for x, c in enumerate(hist):
+        kind, t = c["kind"], c["t"]
+        th = np.array(st.thetas[t])
+        base = st.vs[t]
+        try:
+            if kind == "energy":
+                E = float(np.real(v.energy_estimation(th)))
+                if abs(E - base.Eexact) > 1e-8:
+                    return x, "energy", "energy_estimation(theta_%d) = %.10f, exact %.10f" % (t, E, base.Eexact)
+            elif kind == "opexp":
+                v.operator_expectation("S^2", th)
+            elif kind == "simulate":
+                holder.x = th
+                v.simulate()
+                state["opt"] = t
+            else:
+                rel = relation(state["cur"], state["opt"], t)
+                if base.uhf:
+                    u1, u2 = v.get_rdm_uhf(th)
+                    got = [np.array(a) for a in u1] + [np.array(a) for a in u2]
+                    want = list(base.u1) + list(base.u2)
+                    E = float(mol.energy_from_rdms(u1, u2))
+                else:
+                    g1, g2 = v.get_rdm(th, sum_spin=True)
+                    f1, f2 = v.get_rdm(th, sum_spin=False)
+                    got = [np.array(g1), np.array(g2), np.array(f1), np.array(f2)]
+                    want = [base.sm1, base.sm2, base.so1, base.so2]
+                    E = float(mol.energy_from_rdms(np.array(g1), np.array(g2)))
+                if abs(E - base.Eexact) > 1e-8:
+                    return x, rel, "energy_from_rdms(get_rdm(theta_%d)) = %.10f but the exact <psi(theta_%d)|H|psi(theta_%d)> = %.10f" % (t, E, t, t, base.Eexact)
+                for a, b in zip(got, want):
+                    if a.shape != b.shape or np.max(np.abs(a - b)) > TOL:
+                        return x, rel, "get_rdm(theta_%d) differs from the (TLC-validated) RDMs of theta_%d by %.3g" % (t, t, np.max(np.abs(a - b)))
+        except Exception as e:
+            return x, "exception:%s" % type(e).__name__, "%s(theta_%d) raised %s: %s" % (kind, t, type(e).__name__, e)
+        state["cur"] = t
+    return None
+
+
+def part_rdm_history(chk, only=None):
+    sts = [st for st in HSTATES if st.cfg["hist"] and (only is None or st.cfg["name"] == only)]
+    if not sts:
+        return 0
+    hs = gen_rdm_histories(chk, 3 if chk.quick else 4)
+    n = 0
+    for st in sts:
+        cfg = st.cfg
+        # the exact RDMs / energies of the three vectors come from the V part: all three samples must have been judged ok
+        if len(st.vs) < 4 or not all(getattr(s, "ok", False) and getattr(s, "Eexact", None) is not None for s in st.vs[1:4]):
+            chk.inconclusive += 1
+            continue
+        holder = c08.Holder()
+        v, since, cnt = None, [], 0
+        for h in hs:
+            if v is None or cnt >= 40:
+                v = c08.make_solver(cfg, holder, initial=st.thetas[1])
+                state = {"cur": None, "opt": None}
+                since, cnt = [], 0
+            r = replay_rdm_history(cfg, st, v, holder, h, state)
+            since.append(h)
+            cnt += 1
+            n += 1
+            if r is not None:
+                v1 = c08.make_solver(cfg, holder, initial=st.thetas[1])
+                r1 = replay_rdm_history(cfg, st, v1, holder, h, {"cur": None, "opt": None})
+                hh = h if r1 is not None else [c for q in since for c in q]
+                step, rel, text = r1 if r1 is not None else r
+                chk.violation("history-rdm:%s:%s" % (rel, "uhf" if st.vs[1].uhf else "restricted"),
+                              "%s history %s: step %d: %s" % (cfg["name"], [(c["kind"], c["t"]) for c in hh][-6:], len(hh) - len(h) + step if r1 is None else step, text),
+                              {"part": "rdm-history", "cfg": cfg["name"], "history": hh, "thetas": [list(map(float, t)) for t in st.thetas]})
+                v = None
+    chk.add_traces(n, "rdm_histories_replayed")
+    return n
 
 
 # ======================================================================================================
@@ -826,6 +955,8 @@ def run(chk):
         if only:
             cfgs = [c for c in cfgs if any(f in c["name"] for f in only.split(","))]
         n += part_vqe(chk, rng, cfgs)
+        if "hist" not in skip:
+            n += part_rdm_history(chk)
     if "classical" not in skip:
         n += part_classical(chk)
     chk.add_eval(n, n)
@@ -859,6 +990,21 @@ def replay(chk, rec):
             samples.append(s)
             stof[id(s)] = st
         run_vqe_jobs(c2, samples, stof, "replay")
+    elif case["part"] == "rdm-history":
+        cfg = vqe_by_name(case["cfg"])
+        st = vqe_prepare(c2, cfg, rng)
+        st.thetas = [np.array(t) for t in case["thetas"]]
+        st.vs, stof = [], {}
+        for th in st.thetas:
+            s = vqe_drive(c2, cfg, st, st.v, th)
+            st.vs.append(s)
+            stof[id(s)] = st
+        run_vqe_jobs(c2, st.vs, stof, "replay")
+        holder = c08.Holder()
+        v = c08.make_solver(cfg, holder, initial=st.thetas[1])
+        r = replay_rdm_history(cfg, st, v, holder, case["history"], {"cur": None, "opt": None})
+        print("  history replay:", r)
+        return r is None and not c2.violations
     else:
         part_classical(c2, cases=[(case["mol"], case["solver"])])
     for key, detail, _ in c2.violations:
